@@ -342,6 +342,9 @@ struct Ledger : Monitor {
 		if (!quiet_echo && m && !m->qd.empty() && v[use].strict && v[use].plain_labels && found_exact < 0) {
 			w->S.violate("C10", "echo", "answer id=" + std::to_string(id) + " carries question '" + m->qd[0].name.dotted() + "'/" + std::to_string(m->qd[0].type) +
 				     " but the query was '" + v[use].name + "'/" + std::to_string(v[use].type));
+			// C14 asks for a received query "from that address with that id and question": none of the unanswered ones has it
+			w->S.violate("C14", "unsolicited.question", "answer id=" + std::to_string(id) + " to " + d.dst.str() + " carries question '" + m->qd[0].name.dotted() +
+				     "', which no unanswered query with that id from that address asked");
 		}
 		if (m && !quiet_echo && !relay && v[use].strict && v[use].plain_labels && found_exact >= 0) check_ns_a(d, *m, v[use]);
 		v.erase(v.begin() + use);
